@@ -6,8 +6,9 @@ import UralModel.Model.Google
 
 `puny` travels with each line as the table of the real `attempt_to_decode_idna` on the
 `xn--` labels of the hostname (`[[label, decoded]…]`); the trie is the one the module builds
-from the regenerated domain list (built once: no domain has an `xn--` label — table
-obligation `youtube_domains_plain` — so it does not depend on `puny`). -/
+from the regenerated domain list (built once, with the identity decoder: no label of a listed
+domain starts with `xn--` — table obligation `youtube_domains_no_puny_label` — so the decoder
+is never consulted while the trie is built). -/
 open Lean Ural Ural.Py
 
 namespace Driver.C19Youtube
